@@ -57,6 +57,12 @@ def memsKey (size : Nat) : List Mem := memShapes keyBases keyIdxs [1, 2, 8] disp
   memShapes [some 3, some 5, some 9] [none, some 6, some 13] [4] [0, 0x44] [true] size
 def memsMid (size : Nat) : List Mem := memShapes [none, some 0, some 4, some 5, some 12, some 13] [none, some 1, some 13] [1, 4] [0, 8, -0x81] [false] size ++
   memShapes [some 3, some 13] [none, some 6] [2] [0x44] [true] size
+/-- a stack pointer written as the second register: `[base+rsp]`, `[base+rsp+disp]` (the NASM index/base swap; with
+    the STRICT swap option the documented literal encoding applies instead — not judged there) -/
+def memsSwap (size : Nat) : List Mem :=
+  [some 0, some 3, some 5, some 9, some 12, some 13].flatMap fun b =>
+    [0, 8, -0x81].map fun d => mkMem size false b (some 4) 1 d
+
 def memsFew (size : Nat) : List Mem := [mkMem size false (some 3) none 1 0, mkMem size false (some 13) (some 1) 4 (-0x20)]
 
 def noMems (_ : Nat) : List Mem := []
@@ -103,7 +109,8 @@ def fewRegs (ds : List Dec) : List Dec :=
 def famC02 (level : Nat) : List Item :=
   (table.filter fun en => hasRm en && !hasRel en).flatMap fun en =>
     let rep := en.mn == "mov" && en.opc == 0x8B || en.mn == "paddb" || en.mn == "vaddpd" || en.mn == "lea"
-    let mems := if level ≥ 2 && rep then memsFull else if level ≥ 1 || rep then memsKey else memsMid
+    let mems0 := if level ≥ 2 && rep then memsFull else if level ≥ 1 || rep then memsKey else memsMid
+    let mems := fun sz => mems0 sz ++ memsSwap sz
     let f : Fill := { mems, imms := fewImm, rels8 := [], rels32 := [], regForm := false, memForm := true }
     let ds := fewRegs (enumEnc f en)
     items {} ds ++ (if rep || level ≥ 1 then items { scaleFirst := true, kwAlways := true, num := .dec } ds else [])
